@@ -12,12 +12,12 @@ replace github.com/willf/bitset v1.1.11 => github.com/bits-and-blooms/bitset v1.
 require (
 	github.com/99designs/keyring v1.2.2
 	github.com/MichaelMure/git-bug v0.0.0
+	github.com/ProtonMail/go-crypto v1.0.0
 	github.com/go-git/go-billy/v5 v5.5.0
 )
 
 require (
 	dario.cat/mergo v1.0.0 // indirect
-	github.com/ProtonMail/go-crypto v1.0.0 // indirect
 	github.com/RoaringBitmap/roaring v1.9.4 // indirect
 	github.com/bits-and-blooms/bitset v1.13.0 // indirect
 	github.com/blevesearch/bleve v1.0.14 // indirect
